@@ -1052,7 +1052,7 @@ M.contract(P_ATC + ':ActionToCheckExecutor._do_execute_w_output_files', inline=T
 M.contract('exactly_lib.util.file_utils.misc_utils:make_file_read_only__p', inline=True,
            params=dict(path=Iface(FsPathI)), ensures={'returns': lambda result: result is None}, raises_only=())
 
-M.contract(P_ATC + ':ActionToCheckExecutor._do_execute',
+M.contract(P_ATC + ':ActionToCheckExecutor._do_execute', inline=True,
            params=dict(self=ATC_EXECUTOR), returns=EXIT_CODE_OR_HARD_ERROR,
            ensures={
                'stdout/stderr given to the ATC are result/stdout and result/stderr, opened for writing (or the files '
@@ -1669,6 +1669,7 @@ def is_shell_command_of_rest_of_line(command_sdv, trace):
 
 
 M.contract('exactly_lib.impls.types.program.parse.parse_shell_command:_ParseAsCommand.parse_from_token_parser',
+           inline=True,        # (its clause speaks about ghost events: call sites interpret the body)
            params=dict(self=SHELL_PARSER, parser=Iface(TokenParserI)), returns=Any_,
            ensures={'`$ COMMAND LINE`: the rest of the line, VERBATIM, AS ONE STRING, is the shell command line; no '
                     'arguments': lambda result, trace: is_shell_command_of_rest_of_line(result, trace)},
@@ -1732,3 +1733,91 @@ M.contract('exactly_lib.impls.types.program.parse.parse_program:_Parser.parse_fr
            and is_concat(result.g_transformations, _returned(trace, COMMAND_AND_ARGUMENTS).g_transformations,
                          _opt_singleton(_returned(trace, TRANSFORMATION_PARSED)), j)},
            raises_only=())
+
+
+@M.bounded('arguments-accumulation')
+def _arguments_accumulation(ctx):
+    """parse_arguments._Parser.parse_from_token_parser folds the parsed argument elements with
+    `functools.reduce(_accumulate, elements, ArgumentsSdv.empty())` (a flatten of a list of lists: outside the
+    quantifier-free list algebra of the engine).  The real method is executed on EVERY sequence of up to 4 parsed
+    elements, each an ArgumentsSdv with 0..2 list elements and 0..1 validators (unique marker objects), and compared
+    with the independent definition "all list elements, then all validators, in written order".  NOT counted as
+    proved.  (ArgumentsSdv.new_accumulated itself, the step of the fold, IS proved above.)"""
+    import itertools as it
+    from exactly_lib.impls.types.program.parse import parse_arguments
+
+    class Marker:
+        def __init__(self, name):
+            self.name = name
+
+        def __repr__(self):
+            return self.name
+
+    class StubElementsParser:
+        def __init__(self, elements):
+            self.elements = elements
+
+        def parse(self, token_parser):
+            return self.elements
+
+    shapes = [(n, v) for n in range(3) for v in range(2)]
+    cases, failures = 0, []
+    for n in range(5):
+        for combo in it.product(shapes, repeat=n):
+            cases += 1
+            parsed, exp_elements, exp_validators = [], [], []
+            for i, (ne, nv) in enumerate(combo):
+                es = [Marker('e%d.%d' % (i, k)) for k in range(ne)]
+                vs = [Marker('v%d.%d' % (i, k)) for k in range(nv)]
+                parsed.append(ArgumentsSdv(ListSdv(es), tuple(vs)))
+                exp_elements += es
+                exp_validators += vs
+            p = object.__new__(parse_arguments._Parser)
+            p._elements_parser = StubElementsParser(parsed)
+            r = p.parse_from_token_parser(None)
+            got_e, got_v = list(r._arguments._elements), list(r._validators)
+            if [id(x) for x in got_e] != [id(x) for x in exp_elements] or \
+                    [id(x) for x in got_v] != [id(x) for x in exp_validators]:
+                failures.append({'input': repr(combo), 'expected': repr((exp_elements, exp_validators)),
+                                 'actual': repr((got_e, got_v))})
+    ctx.bounded_result('parse_arguments._Parser.parse_from_token_parser (fold of the parsed argument elements)',
+                       bound='<= 4 parsed elements, each with 0..2 list elements and 0..1 validators',
+                       cases=cases, exhaustive=True, failures=failures,
+                       note='independent definition: concatenation in written order')
+
+
+# --- act/execute: hard error of the ATC (cannot start the process, TIMEOUT) => HARD_ERROR of the step
+
+FAILURE_CON = 'failure_con'
+
+
+class FailureConI(Interface):
+    methods = {'__call__': Method(returns=Any_, event=FAILURE_CON, params=['status', 'failure_details'])}
+
+
+def _run_action(action):
+    try:
+        action()
+        return None
+    except PhaseStepFailureException as ex:
+        return ex.failure
+
+
+def act_execute_step(atc_executor, failure_con):
+    """Scenario: what the partial executor does with the step act/execute: it calls the action it is given"""
+    action = atc_executor.execute(failure_con)
+    return _run_action(action)
+
+
+M.contract('contracts.C10_process:act_execute_step', props=BOTH,
+           params=dict(atc_executor=ATC_EXECUTOR, failure_con=Iface(FailureConI)),
+           ensures={
+               'an exit code => the step succeeds': lambda result, trace:
+               (not atc_results(trace)[0][0] is not None)
+               or (result is None and [e for e in trace if e[0] == FAILURE_CON] == []),
+               'a hard error of the ATC (process cannot be started, or TIMED OUT) => the step fails with HARD_ERROR':
+                   lambda result, trace:
+                   (not atc_results(trace)[0][0] is None)
+                   or (result is [e[2] for e in trace if e[0] == FAILURE_CON + ':returned'][0]
+                       and [e[2][0] for e in trace if e[0] == FAILURE_CON] == [ExecutionFailureStatus.HARD_ERROR]),
+           }, raises_only=())
